@@ -6,7 +6,8 @@ text) is string processing outside the executor's theories.  Here problems are b
 Problem.variables is compared with an independent natural sort, for every pool and several insertion orders.
 
 Bounds: the name pools below (vector elements with 1-3 digit indices, matrix elements, suffixed scalars, mixed prefixes), 4
-creation / mention orders each.
+creation / mention orders each; plus nine models whose objective / constraints mix several views (slices) of one vector, where
+the list must be exactly the variables mentioned (the single-vector shortcut is a worklist traversal without a proof).
 """
 from __future__ import annotations
 
@@ -60,6 +61,36 @@ def main():
             if got != want:
                 k = next(i for i, (a, b) in enumerate(zip(got, want)) if a != b) if len(got) == len(want) else -1
                 fails.append((pname, oi, f"position {k}: {got[k] if k >= 0 else len(got)} where the natural order has {want[k] if k >= 0 else len(want)}"))
+    # objectives that mix several views of one vector (and constraints over other views): the single-vector shortcut must not
+    # mistake two different views for one source -- expected list = natural order of the union of the variables mentioned
+    import numpy as np
+    from optyx import VectorVariable
+
+    def view_models():
+        x = VectorVariable("x", 6, lb=0.0, ub=1.0)
+        y = VectorVariable("y", 3, lb=0.0, ub=1.0)
+        c3 = np.array([1.0, 2.0, 3.0])
+        yield "x[:]+x[::2]", x[:].sum() + x[::2].sum(), []
+        yield "x[::2]+x[:]", x[::2].sum() + x[:].sum(), []
+        yield "x[0:3]+x[3:6]", x[0:3].sum() + x[3:6].sum(), []
+        yield "x[1:4] then x[::2] in a constraint", x[1:4].sum(), [x[::2].sum() <= 2.0]
+        yield "c@x[::2] + x[1::2].sum()", c3 @ x[::2] + x[1::2].sum(), []
+        yield "x[::2].dot(x[::2]) + x[1:3].sum()", x[::2].dot(x[::2]) + x[1:3].sum(), []
+        yield "(x[:3]**2).sum() + (x[3:]**2).sum()", (x[:3] ** 2).sum() + (x[3:] ** 2).sum(), []
+        yield "x[::2] and y", x[::2].sum() + y.sum(), [x[1] + y[0] <= 1.0]
+        yield "x[:2].sum() with x[4] only in the last constraint", x[:2].sum(), [x[0] <= 1.0, x[1] + x[4] <= 1.5]
+    for vname, obj, cons in view_models():
+        cases += 1
+        P = Problem().minimize(obj)
+        for k in cons:
+            P.subject_to(k)
+        mentioned = set(v.name for v in obj.get_variables())
+        for k in cons:
+            mentioned |= set(v.name for v in k.expr.get_variables())
+        want = sorted(mentioned, key=ref_key)
+        got = [v.name for v in P.variables]
+        if got != want or P.n_variables != len(want) or len(P.get_bounds()) != len(want):
+            fails.append(("views: " + vname, 0, f"variables {got} (n_variables {P.n_variables}), the model mentions {want}"))
     out, seen = [], set()
     for pname, oi, what in fails:
         sig = f"order:{pname}"
